@@ -940,7 +940,10 @@ pub fn gen_c08(r: &mut Rng, tier: Tier) -> Case {
             (0..mass).map(|i| t.replace("Pz", &format!("Pz{i}q")).replace("PZ", &format!("PZ{i}Q"))).collect()
         }
     };
-    let poison_text = with_companion(wrap(&mult(&p.poison), depth));
+    // the attribute in its qualified spelling, now and then
+    let qualify = r.chance(1, 8);
+    let spelled = |t: &str| -> String { if qualify { t.replacen("#[typeshare]", "#[typeshare::typeshare]", 1) } else { t.to_string() } };
+    let poison_text = with_companion(wrap(&mult(&spelled(&p.poison)), depth));
     // the skip marker in one of its equivalent spellings
     let spell = |r: &mut Rng, s: &str| -> String {
         let alts = [
@@ -961,18 +964,36 @@ pub fn gen_c08(r: &mut Rng, tier: Tier) -> Case {
             s.replacen("#[typeshare(skip)]", &a, 1)
         }
     };
-    let skipped_text = p.skipped.as_deref().map(|s| with_companion(wrap(&mult(&spell(r, s)), depth)));
+    let skipped_text = p.skipped.as_deref().map(|s| with_companion(wrap(&mult(&spelled(&spell(r, s))), depth)));
     let mut poisoned = good.clone();
     // same planting position for the poisoned and the skipped variant
     let mut r2 = r.clone();
     let ppath = plant_chunk(r, &mut poisoned, &world, &poison_text, "pz.rs", true);
-    let mut versions = vec![good, poisoned];
     let mut notes = vec![format!("poison:{}:{}", p.id, ppath)];
+    // now and then the same construct sits in many files at once (every one of them is an
+    // offending source file the diagnostics have to name)
+    let many_files: usize = if mass == 1 && (p.poison.contains("Pz") || p.poison.contains("PZ")) && r.chance(1, 40) { *r.pick(&[7usize, 12]) } else { 0 };
+    let mass_dir = r.pick(&world.crates).dir.clone();
+    let file_copy = |t: &str, i: usize| t.replace("Pz", &format!("Pz{i}f")).replace("PZ", &format!("PZ{i}F"));
+    for i in 0..many_files {
+        let path = format!("{mass_dir}/src/pzmass/pz_{i}.rs");
+        poisoned.push(SrcFile::text(&path, vec!["use typeshare::typeshare;\n".into(), file_copy(&spelled(&p.poison), i)]));
+        notes.push(format!("poison:{}:{}", p.id, path));
+    }
+    poisoned.sort_by(|a, b| a.path.cmp(&b.path));
+    let mut versions = vec![good, poisoned];
     let mut has_skipped = false;
     if let Some(sk) = skipped_text.as_deref() {
         let mut skipped = versions[0].clone();
         let spath = plant_chunk(&mut r2, &mut skipped, &world, sk, "pz.rs", true);
         debug_assert_eq!(spath, ppath);
+        if let Some(raw) = p.skipped.as_deref() {
+            for i in 0..many_files {
+                let path = format!("{mass_dir}/src/pzmass/pz_{i}.rs");
+                skipped.push(SrcFile::text(&path, vec!["use typeshare::typeshare;\n".into(), file_copy(&spelled(raw), i)]));
+            }
+            skipped.sort_by(|a, b| a.path.cmp(&b.path));
+        }
         versions.push(skipped);
         has_skipped = true;
         notes.push(format!("skipped:{}:{}", p.id, spath));
@@ -1070,10 +1091,15 @@ fn eval_c08(case: &Case, sc: &mut Scratch, res: &mut EvalResult) {
     }
     apply_preseed(case, &out);
     let mut poison_path = String::new();
+    let mut more_poison_paths: Vec<String> = vec![];
     for n in &case.notes {
         let parts: Vec<&str> = n.split(':').collect();
         if parts.len() >= 3 && parts[0] == "poison" {
-            poison_path = format!("ws/{}", parts[2]);
+            if poison_path.is_empty() {
+                poison_path = format!("ws/{}", parts[2]);
+            } else {
+                more_poison_paths.push(format!("ws/{}", parts[2]));
+            }
         }
     }
     for (idx, inv) in case.ops.iter().enumerate() {
@@ -1113,6 +1139,9 @@ fn eval_c08(case: &Case, sc: &mut Scratch, res: &mut EvalResult) {
                     let all = format!("{}\n{}", o.errors().join("\n"), o.err_text);
                     if !poison_path.is_empty() && !all.contains(&poison_path) {
                         push("DIAGNOSTIC_OMITS_FILE", ctxs.clone(), format!("diagnostic does not name {poison_path}: {}", all.replace('\n', " / ")));
+                    } else if let Some(missing) = more_poison_paths.iter().find(|p| tree.iter().any(|f| format!("ws/{}", f.path) == **p) && !all.contains(p.as_str())) {
+                        // the same construct in several files: each of them is an offending file
+                        push("DIAGNOSTIC_OMITS_FILE", format!("{ctxs}|one_of_many"), format!("diagnostic does not name {missing} (one of {} files with the construct): {}", more_poison_paths.len() + 1, all.replace('\n', " / ").chars().take(600).collect::<String>()));
                     }
                 }
             }
